@@ -164,11 +164,237 @@ def c14(ck, tmp):
         os.remove(gfa)
 
 
+# ---------------------------------------------------------------------------------------------------- C15
+def graph_text(n, edges, rng=None, ids=None):
+    """edges: list of (i, di, j, dj, ov) over node indices"""
+    ids = ids or ["v%d" % i for i in range(n)]
+    lines = ["S\t%s\t*" % i for i in ids]
+    for (a, da, b, db, ov) in edges:
+        lines.append("L\t%s\t%s\t%s\t%s\t%dM" % (ids[a], da, ids[b], db, ov))
+    if rng is not None and rng.random() < 0.3:
+        rng.shuffle(lines)
+    return "\n".join(lines) + "\n", ids
+
+
+def rand_graph(rng, maxn=9):
+    n = rng.randint(1, maxn)
+    edges = []
+    style = rng.random()
+    if style < 0.35:   # chain of blocks: guarantees cut vertices and cycles
+        k = 0
+        cur = 0
+        while cur < n - 1:
+            size = rng.randint(1, min(4, n - 1 - cur))
+            block = list(range(cur, cur + size + 1))
+            for a, b in zip(block, block[1:]):
+                edges.append((a, b))
+            if size >= 2:
+                edges.append((block[0], block[-1]))
+                if size >= 3 and rng.random() < 0.5:
+                    edges.append((block[0], block[2]))
+            cur += size
+    else:
+        m = rng.randint(0, min(2 * n, n * (n - 1) // 2 + 2))
+        for _ in range(m):
+            edges.append((rng.randrange(n), rng.randrange(n)))
+    out = []
+    for (a, b) in edges:
+        out.append((a, rng.choice("+-"), b, rng.choice("+-"), rng.choice([0, 0, 0, 5])))
+        if rng.random() < 0.08:   # parallel link with another overlap / orientation
+            out.append((a, rng.choice("+-"), b, rng.choice("+-"), 7))
+    perm = list(range(n))
+    rng.shuffle(perm)   # node order in the file independent of structure
+    out = [(perm[a], da, perm[b], db, ov) for (a, da, b, db, ov) in out]
+    return n, out
+
+
+def run_algos(ck, text, ids, rng, tmp, tag):
+    from gaftools.gfa import GFA
+    gfa = os.path.join(tmp, "a.gfa")
+    gen.write_text(gfa, text)
+    tok = tokenize_gfa(text)
+    starts = [rng.choice(ids) for _ in range(min(3, len(ids)))]
+    impl = {}
+    try:
+        g = GFA(gfa, low_memory=True)
+        comps = g.all_components()
+        impl["components"] = [sorted(c) for c in comps]
+        impl["dfs"] = [g.dfs(s) for s in starts]
+        flags_reset = all(not n.visited for n in g.nodes.values())
+        connected = len(comps) == 1 and len(ids) >= 2
+        if connected:
+            c, a = g.biccs()
+            impl["biccs"] = {"comps": [sorted(x) for x in c], "aps": sorted(a)}
+        else:
+            impl["biccs"] = None
+    except BaseException as e:  # noqa
+        ck.violation("graph primitive crashed: %s: %s" % (type(e).__name__, e), {"gfa": text})
+        return
+    r = ck.driver([{"op": "graph.algos", "gfa": tok, "starts": starts, "impl": impl}])[0]
+    nl = len(tok["links"])
+    has_cycle_or_cut = r["connected"] and (len(r["biccs_spec"]["aps"]) > 0 or any(len(c) >= 3 for c in r["biccs_spec"]["comps"]))
+    ck.case({"gfa": text}, len(ids) >= 3 and has_cycle_or_cut, sample={"gfa": text.splitlines(), "impl": impl} if has_cycle_or_cut and len(ids) >= 5 else None)
+    ck.count(tag)
+    ck.count("nodes:%d" % len(ids))
+    ck.count("connected" if r["connected"] else "disconnected-or-single")
+    if r["connected"]:
+        ck.count("cutvertices:%d" % min(3, len(r["biccs_spec"]["aps"])))
+    replay = {"gfa": text, "starts": starts, "impl": impl, "spec": {"components": r["components_spec"], "biccs": r["biccs_spec"]}}
+    if not r["components_ok"]:
+        ck.violation("all_components is not the partition into connected components", replay)
+        return
+    if not flags_reset:
+        ck.violation("visited flags left set after all_components", replay)
+        return
+    if not r["dfs_ok"]:
+        ck.violation("dfs does not visit exactly the nodes of the start node's component once each", replay)
+        return
+    if not r["biccs_ok"]:
+        ck.violation("biccs does not return the true biconnected components / articulation points", replay)
+        return
+    canon = lambda ll: sorted(sorted(x) for x in ll)
+    if canon(impl["components"]) != r["components_model"] or impl["dfs"] != r["dfs_model"]:
+        ck.disagreement("components/dfs differ from the model", dict(replay, model={"components": r["components_model"], "dfs": r["dfs_model"]}))
+    if impl["biccs"] is not None and (canon(impl["biccs"]["comps"]) != r["biccs_model"]["comps"] or impl["biccs"]["aps"] != r["biccs_model"]["aps"]):
+        ck.disagreement("biccs differs from the model", dict(replay, model=r["biccs_model"]))
+
+
+def dump_graph(g):
+    return [{"id": n.id, "start": sorted([list(x) for x in ((a, bool(b), c) for a, b, c in n.start)]),
+             "end": sorted([list(x) for x in ((a, bool(b), c) for a, b, c in n.end)])} for n in g.nodes.values()]
+
+
+def run_history(ck, rng):
+    from gaftools.gfa import GFA
+    g = GFA()
+    alive = []
+    ops = []
+    pool = ["n%d" % i for i in range(rng.randint(2, 6))]
+    ndel = 0
+    for _ in range(rng.randint(3, 25)):
+        r = rng.random()
+        if r < 0.3 or len(alive) < 1:
+            i = rng.choice(pool)
+            ops.append({"op": "addNode", "id": i})
+            g.add_node(i)
+            if i not in alive:
+                alive.append(i)
+        elif r < 0.8:
+            a, b = rng.choice(alive), rng.choice(alive)
+            da, db, ov = rng.choice("+-"), rng.choice("+-"), rng.choice([0, 0, 4])
+            ops.append({"op": "addLink", "a": a, "da": da == "+", "b": b, "db": db == "+", "ov": ov, "tags": []})
+            g.add_edge(a, da, b, db, ov)
+        else:
+            i = rng.choice(alive)
+            ops.append({"op": "delNode", "id": i})
+            try:
+                g.remove_node(i)
+            except BaseException as e:  # noqa
+                ck.violation("remove_node raised %s" % type(e).__name__, {"ops": ops})
+                return
+            alive.remove(i)
+            ndel += 1
+    impl = dump_graph(g)
+    r = ck.driver([{"op": "graph.history", "ops": ops}])[0]
+    ck.case(ops, ndel >= 1 and any(o["op"] != "delNode" for o in ops[[k for k, o in enumerate(ops) if o["op"] == "delNode"][0]:]) if ndel else False,
+            sample={"ops": ops[:8]} if ndel else None)
+    ck.count("history-dels:%d" % min(ndel, 3))
+    replay = {"ops": ops, "impl": impl, "spec": r["spec"]}
+    # symmetric and no dangling, on the implementation's own graph
+    ids = {n["id"] for n in impl}
+    for n in impl:
+        for side, key in ((False, "start"), (True, "end")):
+            for (m, sm, ov) in n[key]:
+                if m not in ids:
+                    ck.violation("adjacency of %s refers to deleted node %s" % (n["id"], m), replay)
+                    return
+                other = [x for x in impl if x["id"] == m][0]["end" if sm else "start"]
+                if [n["id"], side, ov] not in other:
+                    ck.violation("adjacency not symmetric between %s and %s" % (n["id"], m), replay)
+                    return
+    if impl != r["spec"]:
+        ck.violation("graph after the history differs from the graph built from the surviving nodes and links", replay)
+        return
+    if impl != r["model"]:
+        ck.disagreement("history result differs from the model", dict(replay, model=r["model"]))
+
+
+def c15(ck, tmp):
+    rng = ck.rng
+    quick = ck.tier == "quick"
+    for it in range(400 if quick else 20000):
+        n, edges = rand_graph(rng)
+        ids = ["v%d" % i for i in range(n)] if rng.random() < 0.6 else [str(10 - i) for i in range(n)]
+        text, ids = graph_text(n, edges, rng, ids)
+        run_algos(ck, text, ids, rng, tmp, "random")
+    # exhaustive: every simple graph on n labelled nodes (n <= 4 quick, <= 5 thorough), one orientation labelling each
+    top = 4 if quick else 5
+    count = 0
+    for n in range(1, top + 1):
+        pairs = list(itertools.combinations(range(n), 2))
+        for mask in range(1 << len(pairs)):
+            edges = [(a, "+", b, "+", 0) for k, (a, b) in enumerate(pairs) if mask >> k & 1]
+            text, ids = graph_text(n, edges)
+            run_algos(ck, text, ids, rng, tmp, "exhaustive<=%d" % top)
+            count += 1
+    # exhaustive with self-links / parallel links / all four orientation labellings on <= 3 nodes
+    for n in range(1, 4):
+        slots = [(a, b) for a in range(n) for b in range(a, n)]
+        for mult in itertools.product(range(3), repeat=len(slots)):
+            if sum(mult) > 4:
+                continue
+            edges = []
+            for (a, b), m in zip(slots, mult):
+                for k in range(m):
+                    edges.append((a, "+-"[k % 2], b, "+-"[(k + (a == b)) % 2], k))
+            text, ids = graph_text(n, edges)
+            run_algos(ck, text, ids, rng, tmp, "exhaustive-multigraph<=3")
+    ck.extra["exhaustive_scopes"] = ["all simple graphs on <= %d labelled nodes" % top, "all multigraphs on <= 3 nodes with <= 2 links per slot (self-links included), <= 4 links"]
+    for it in range(250 if quick else 8000):
+        run_history(ck, rng)
+    if not quick:
+        big_graph(ck)
+
+
+def big_graph(ck):
+    """the 100k-node test graph: implementation's components/aps against definitions that scale (components only)"""
+    from gaftools.gfa import GFA
+    p = "/repo/tests/data/large-graph-chr1.gfa.gz"
+    if not os.path.exists(p):
+        return
+    g = GFA(p, low_memory=True)
+    comps = g.all_components()
+    # independent union-find
+    parent = {}
+    def find(x):
+        while parent.setdefault(x, x) != x:
+            parent[x] = parent[parent[x]]
+            x = parent[x]
+        return x
+    import gzip
+    for line in gzip.open(p, "rt"):
+        if line.startswith("S"):
+            find(line.split("\t")[1])
+    for line in gzip.open(p, "rt"):
+        if line.startswith("L"):
+            f = line.split("\t")
+            if f[1] in parent and f[3] in parent:
+                parent[find(f[1])] = find(f[3])
+    classes = {}
+    for x in list(parent):
+        classes.setdefault(find(x), set()).add(x)
+    ck.count("large-graph")
+    ck.case("large-graph-chr1", True)
+    if sorted(map(sorted, comps)) != sorted(map(sorted, classes.values())):
+        ck.violation("all_components wrong on tests/data/large-graph-chr1.gfa.gz", {"file": p})
+
+
+
 def main(prop):
     ck = Check(prop)
     ck.trusted = ["Lean 4.33.0 kernel", "axioms: propext, Classical.choice, Quot.sound (audited)", "correspondence harness + JSON driver",
                   "tokenisation of GFA text (strip/split) and of path strings (re.findall) modelled at token level: covered by correspondence only"]
-    ck.lean_build(["Gaftools.Props.%s" % prop])
+    ck.lean_build(["Gaftools.Props.C15Hist"] if prop == "C15" else ["Gaftools.Props.%s" % prop])
     ck.audit("%s.lean" % prop)
     tmp = tempfile.mkdtemp(prefix="gtv-graph-")
     try:
@@ -176,6 +402,12 @@ def main(prop):
             ck.assumptions = ["unique segment ids", "steps over nodes of the graph (an unknown first node of a pair raises KeyError in the tool)", "sequences over ACGT for the reverse-complement involution"]
             ck.rule = "random GFAs of 1-6 nodes (all four link orientations, self-links, both-end declarations, dangling links, shuffled lines, numeric ids, gzip) x 10 step sequences (55% walks following links forwards/mirrored, some broken, rest arbitrary) + each reversed; library call and find_path file mode; non-trivial = >= 2 steps over nodes of the graph"
             c14(ck, tmp)
+        elif prop == "C15":
+            ck.assumptions = ["unique segment ids; histories only use calls that do not raise (links between existing nodes, deletion of existing nodes)",
+                              "biccs: the graph is connected (the library's caller passes one component)"]
+            ck.canon = ["components / blocks / articulation points compared as sorted sets", "adjacency sets sorted"]
+            ck.rule = "random multigraphs of 1-9 nodes (block chains with cycles and cut vertices; G(n,m) with self-links, parallel links, all orientations, shuffled lines, numeric ids) + exhaustive small scopes + random edit histories; non-trivial = >= 3 nodes with a cycle or a cut vertex; histories: a deletion followed by further operations"
+            c15(ck, tmp)
     finally:
         shutil.rmtree(tmp, ignore_errors=True)
     return ck.finish()
